@@ -402,31 +402,105 @@ def run():
             shutil.rmtree(chk.scratch, ignore_errors=True)
 
 
+def runs_leg(chk, runs, stats):
+    """File-name handling: drive the runs, validate with TLC
+    (TraceOutputNames.tla), judge."""
+    if not runs:
+        return
+    sc = chk.scratch
+    cf = os.path.join(sc, 'runs.ndjson')
+    of = os.path.join(sc, 'runs-out.ndjson')
+    with open(cf, 'w') as fp:
+        for r in runs:
+            fp.write(json.dumps(r) + '\n')
+    p = chk.run_py('checks/c11_driver.py', ['--runs', cf, of], check=False)
+    if p.returncode != 0:
+        raise MachineryError('run driver failed rc=%d\n%s' % (
+            p.returncode, (p.stderr or '')[-3000:]))
+    check_sources([of])
+    traces = {}
+    for line in open(of):
+        t = json.loads(line)
+        traces[t['id']] = t
+    if len(traces) != len(runs):
+        raise MachineryError('recorded %d runs, expected %d' % (
+            len(traces), len(runs)))
+    try:
+        verdicts, st = tlc.validate_batches(
+            'TraceOutputNames', 'TraceOutputNames.cfg', [of], parallel=1)
+    except tlc.TLCError as ex:
+        raise MachineryError(str(ex))
+    if len(verdicts) != len(runs):
+        raise MachineryError('run verdicts %d != runs %d' % (
+            len(verdicts), len(runs)))
+    desc = {r['id']: r for r in runs}
+    for v in verdicts:
+        t = traces[v['id']]
+        d = desc[v['id']]
+        if t['error'].startswith('HARNESS') or not v['pre']:
+            raise MachineryError('bad generated run %s %s' % (
+                v['id'], t['error']))
+        stats['runs'] += 1
+        stats['dumps'] += v['ndumps']
+        for cl in v['failed']:
+            stats['clauses'][cl] = stats['clauses'].get(cl, 0) + 1
+        what = 'names %s' % d['names'][:4]
+        replay = dict(id=v['id'], run=d, failed=sorted(v['failed']),
+                      known=sorted(v['known']), error=t['error'])
+        if v['unexplained']:
+            chk.violation('file names: %s break %s%s' % (
+                what, sorted(v['unexplained']),
+                ' (%s)' % t['error'] if t['error'] else ''), replay)
+        else:
+            for fid in v['known']:
+                if chk.known(fid):
+                    chk.known_hit(fid)
+                else:
+                    chk.violation('file names: %s break %s (signature of %s,'
+                                  ' not an accepted known finding)' % (
+                                      what, sorted(v['failed']), fid), replay)
+        if stats['sample'] is None and not v['failed'] and v['ndumps'] > 2 \
+                and '.' in d['base']:
+            stats['sample'] = dict(
+                id=v['id'], names_given_to_dump=d['names'],
+                files_after_last_dump=[''.join(x) for x in t['listings'][-1]],
+                get_files=[''.join(x) for x in t['found']], verdict=v)
+    stats['trace_states'] = st['distinct']
+
+
 def check(chk):
     sc = chk.scratch
     quick = chk.tier == 'quick'
     design = asis = None
     phases = {}
     t0 = time.time()
+    names_mc = None
+    runs = []
+    rstats = dict(runs=0, dumps=0, clauses={}, sample=None, trace_states=0)
     if chk.args.replay:
         obj = json.load(open(chk.args.replay))['case']
+        if 'run' in obj:
+            runs_leg(chk, [obj['run']], rstats)
+            chk.finish()
         cases = [obj['desc']]
     else:
-        design = tlc.run('OutputMC', 'OutputMC.cfg', workers=16, timeout=900)
+        # the design runs go on in the background while the real code runs
+        dpool = ThreadPoolExecutor(max_workers=3)
+        fut = dict(
+            design=dpool.submit(tlc.run, 'OutputMC', 'OutputMC.cfg',
+                                workers=8, timeout=900),
+            names_mc=dpool.submit(
+                tlc.run, 'OutputNamesMC', 'OutputNamesMC.quick.cfg' if quick
+                else 'OutputNamesMC.cfg', workers=8, timeout=900))
         if not quick:
-            asis = tlc.run('OutputMC', 'OutputMC.asis.cfg', workers=16,
-                           timeout=900)
-        for r in (design, asis):
-            if r is None:
-                continue
-            if r.get('error') or r.get('timeout'):
-                raise MachineryError('TLC design run failed:\n' +
-                                     r['out'][-3000:])
+            fut['asis'] = dpool.submit(tlc.run, 'OutputMC',
+                                       'OutputMC.asis.cfg', workers=8,
+                                       timeout=900)
         cases = gen_systematic(quick)
         nrand = 200 if quick else 4200
         cases += [gen_random(chk.seed, i) for i in range(nrand)]
+        runs = gen_runs(chk.seed, quick)
     desc = {c['id']: c for c in cases}
-    phases['design_tlc_s'] = round(time.time() - t0, 1)
     t0 = time.time()
     chunks = [cases[w::NWORK] for w in range(NWORK)]
     chunks = [(w, c) for w, c in enumerate(chunks) if c]
@@ -434,6 +508,9 @@ def check(chk):
         outs = list(ex.map(lambda wc: drive(chk, wc[1], wc[0]), chunks))
     check_sources(outs)
     phases['drive_real_code_s'] = round(time.time() - t0, 1)
+    t0 = time.time()
+    runs_leg(chk, runs, rstats)
+    phases['file_name_runs_s'] = round(time.time() - t0, 1)
     t0 = time.time()
     traces = {}
     files = []
@@ -471,6 +548,16 @@ def check(chk):
             len(verdicts), len(traces)))
 
     phases['trace_validation_tlc_s'] = round(time.time() - t0, 1)
+    if not chk.args.replay:
+        t0 = time.time()
+        design = fut['design'].result()
+        names_mc = fut['names_mc'].result()
+        asis = fut['asis'].result() if 'asis' in fut else None
+        for r in (design, asis, names_mc):
+            if r is not None and (r.get('error') or r.get('timeout')):
+                raise MachineryError('TLC design run failed:\n' +
+                                     r['out'][-3000:])
+        phases['waited_for_design_tlc_s'] = round(time.time() - t0, 1)
     per_fmt = {}
     per_clause = {}
     distinct = set()
@@ -523,7 +610,8 @@ def check(chk):
                     and v['nnotstored'] > 0 and t['fmt'] == 'hdf5':
                 sample = dict(id=v['id'], options=opts, arrays=d['arrays'],
                               solver_data=d['sd'], verdict=v)
-    for name, r in (('OutputMC.cfg', design), ('OutputMC.asis.cfg', asis)):
+    for name, r in (('OutputMC.cfg', design), ('OutputMC.asis.cfg', asis),
+                    ('OutputNamesMC', names_mc)):
         if r is not None and not r['ok']:
             chk.violation('design model %s: %s violated' % (
                 name, r['violation']),
@@ -532,8 +620,17 @@ def check(chk):
         v = verdicts[0]
         sample = dict(id=v['id'], verdict=v)
     chk.cov.update(dict(
-        states=design['distinct'] if design else st['distinct'],
-        transitions=design['generated'] if design else st['generated'],
+        states=(design['distinct'] + names_mc['distinct']) if design
+        else st['distinct'],
+        transitions=(design['generated'] + names_mc['generated']) if design
+        else st['generated'],
+        names_design_model='OutputNamesMC.tla (dump name logic and get_files '
+                           'as Python string operations vs FileOf / '
+                           'SolverFile / InCountOrder): %s names and runs' % (
+                               names_mc['distinct'] if names_mc else '-'),
+        file_name_runs=rstats['runs'],
+        file_name_dumps=rstats['dumps'],
+        file_name_failed_clause_counts=rstats['clauses'],
         design_model='OutputMC.tla / OutputMC.cfg (writer and reader as '
                      'fixed; invariants StoredAsSpecified, RoundTripHolds, '
                      'NotStoredAreDefault): %s distinct states%s' % (
@@ -544,8 +641,8 @@ def check(chk):
         phases=phases,
         design_exhaustive=True,
         array_lists=len(cases),
-        traces_validated_against_impl=len(verdicts),
-        trace_states=st['distinct'],
+        traces_validated_against_impl=len(verdicts) + rstats['runs'],
+        trace_states=st['distinct'] + rstats['trace_states'],
         evaluations=len(verdicts),
         stored_values_compared=nvalues,
         cases_per_format=per_fmt,
@@ -556,7 +653,7 @@ def check(chk):
              'one (format, compress, detailed, only_real); distinct by the '
              'hash of (options, projected arrays before the dump); '
              'non-trivial when the file stores at least one particle value',
-        samples=[sample],
+        samples=[sample] + ([rstats['sample']] if rstats['sample'] else []),
         known_finding_samples=ksample,
     ))
     chk.assumptions += [
@@ -572,6 +669,11 @@ def check(chk):
         'no meta-data); only names, stored values, particle counts and '
         'solver data are demanded',
         'mpi_comm=None (single process)',
+        'file names: h5py importable (names without format extension go to '
+        'hdf5); names are relative paths of ASCII letters, digits, ".", '
+        '"_", "-" whose last component has a stem; no glob meta-characters; '
+        'one run per directory; load_and_concatenate is only exercised on '
+        'explicit .npz names (it does not look for hdf5 files)',
     ]
     chk.finish()
 
